@@ -176,6 +176,32 @@ def run(ctx):
         if v["viol"]:
             ctx.violation("C04: exit 0 although %s failed, but %s of %s not applied" % (j[2], ",".join(v["viol"]), rec["id"]),
                           {"kind": "c04-meta", "record": rec, "point": list(j)}, sig={"syscall": j[2], "driver": j[0], "class": "meta"})
+    # ---- the backup rename is a step too: a failing rename (or directory scan) during a numbered/auto overwrite must not
+    #      end in "exit 0 without the backup"; judged by the backup contract (Trace_Backup)
+    from . import C09
+    bjobs = []
+    hist = {"init": [[["a"], "S0"], [["a", 2], "S2"]], "steps": [{"name": ["a"], "mode": "numbered", "v": "V1"}]}
+    hist2 = {"init": [[["a"], "S0"], [["a", 1], "S1"]], "steps": [{"name": ["a"], "mode": "auto", "v": "V1"}]}
+    for drv in ("parfile", "parblock"):
+        for hi, h in enumerate((hist, hist2)):
+            for inj in ("rename:error=EACCES:when=1", "rename:error=EROFS:when=1", "rename:error=EIO:when=1", "getdents64:error=EIO:when=1", "getdents64:error=EIO:when=2",
+                        "getdents64:error=EACCES:when=3"):
+                bjobs.append((h, "c04b-%d-%s-%s" % (hi, drv, inj.replace(":", "_").replace("=", "")), drv, inj))
+    bres = runner.pmap(lambda j: C09.replay_history(binary, j[0], j[1], j[2], C09.BASES["plain"], inject=j[3]), bjobs)
+    brecs = [x for rr in bres for x in rr]
+    bm = tlc.monitor("Trace_Backup", "Trace_Backup.cfg", [{k: v for k, v in x.items() if not k.startswith("_")} for x in brecs])
+    bver = [v for t, v in bm.printed if t == "VERDICT"]
+    ctx.states += bm.distinct; ctx.transitions += bm.generated
+    for rec, v in zip(brecs, bver):
+        ctx.traces += 1; ctx.case(rec["id"], True)
+        # C04 is the implication "exit 0 => complete": only the listing clause (evaluated for exit 0) belongs here; a backup
+        # damaged by a run that DID report failure is a matter for C03 (bystanders under injected failures), which has the same pass
+        if "listing" in v["viol"]:
+            ctx.violation("C04: backup step under fault %s: exit 0 but the result is not old->backup, new->name; before=%s after=%s" % (rec["id"], rec["before"], rec["after"]),
+                          {"kind": "c04-backup", "record": {k: x for k, x in rec.items() if not k.startswith("_")}}, sig={"class": "backup"})
+        elif v["viol"]:
+            ctx.other.append({"clause": "C03", "id": rec["id"], "what": v["viol"]})
+    ctx.notes["backup_fault_runs"] = len(brecs)
     ctx.notes["injected_calls"] = injected_calls
     ctx.notes["fault_points_planned"] = len(jobs)
     ctx.sample({"scenario": "all-ops: nested dirs, multi-block/empty/small/sparse files, link, fifo, older copy at the destination; argv extra %s" % sc["extra"]})
